@@ -135,6 +135,12 @@ def build_repo(vclock=True, log=None):
         # prune builds of other trees (keep scratch small)
         for d in os.listdir(SCRATCH_ROOT):
             if d.startswith('build-%s-' % kind) and d != os.path.basename(dest):
+                # a build another check is using right now (touched on every use) is left alone
+                try:
+                    if time.time() - os.path.getmtime(os.path.join(SCRATCH_ROOT, d)) < 1800:
+                        continue
+                except OSError:
+                    continue
                 shutil.rmtree(os.path.join(SCRATCH_ROOT, d), ignore_errors=True)
         shutil.rmtree(dest, ignore_errors=True)
         os.makedirs(dest)
